@@ -19,7 +19,7 @@ func init() {
 			"R5 the excerpt: every slice of File.Buffer taken in Position is Buffer[lines[l] : lines[l+1]-1] with l the resolved line, or a counter running from the resolved line to the resolved end line, and the number printed in front of it is l+1. " +
 			"Decides: that the record, the prefix and the table are wired to each other as the property says (a swapped pair, a missing +1, a `<` for `<=`, another separator are reported). " +
 			"Does not decide: that File.Position never panics for 0 <= pos <= end <= len — that needs invariants about the contents of File.lines (sorted, last entry len+1), which no analysis here expresses (the count arguments of strings.Repeat are C03/R8, the range of the lexer's positions C03/R6 and C09/R5); the arithmetic theorem 'line = number of newlines before pos'.",
-		Rules: []ruleFn{ruleC20R1, ruleC20R2, ruleC20R3, ruleC20R4, ruleC20R5},
+		Rules: []ruleFn{ruleC20R1, ruleC20R2, ruleC20R3, ruleC20R4, ruleC20R5, ruleC18R6},
 	})
 }
 
@@ -540,7 +540,7 @@ func ruleC20R4(w *World, r *Report) {
 
 func ruleC20R5(w *World, r *Report) {
 	const rule = "C20/R5"
-	r.rule(rule, "every excerpt line of (*File).Position is Buffer[lines[l] : lines[l+1]-1] with l the resolved line or a counter running from the resolved line up to the resolved end line by one, and is numbered l+1; the line break between excerpt lines is written for every line after the first one of the excerpt", 3)
+	r.rule(rule, "every excerpt line of (*File).Position is Buffer[lines[l] : lines[l+1]-1] with l the resolved line or a counter running from the resolved line up to the resolved end line by one, and is numbered l+1; the line break between excerpt lines is written for every line after the first one of the excerpt (an excerpt helper called from Position is followed)", 2)
 	pf, resolve, _, _ := w.c20Funcs(r)
 	if pf == nil {
 		return
@@ -554,109 +554,163 @@ func ruleC20R5(w *World, r *Report) {
 		c, ok := ex.Tuple.(*ssa.Call)
 		return ok && c.Call.StaticCallee() == resolve && len(c.Call.Args) == 2 && c.Call.Args[1] == arg
 	}
-	n := 0
+	// the line index used at a place of Position itself: the resolved line, or a counter from it to the end line
+	indexProblem := func(lb ssa.Value) string {
+		if resLine(lb, pos) {
+			return ""
+		}
+		phi, isPhi := lb.(*ssa.Phi)
+		okInit, okStep, okBound := false, false, false
+		if isPhi {
+			for _, e := range phi.Edges {
+				x, k := plusConst(e)
+				if x == ssa.Value(phi) && k == 1 {
+					okStep = true
+				} else if resLine(x, pos) && k == 0 {
+					okInit = true
+				}
+			}
+			for _, u := range referrers(phi) {
+				if c, ok := u.(*ssa.BinOp); ok {
+					if c.X == ssa.Value(phi) && resLine(c.Y, end) && c.Op == token.LEQ {
+						for _, uu := range referrers(c) {
+							if _, ok := uu.(*ssa.If); ok {
+								okBound = true
+							}
+						}
+					}
+				}
+			}
+		}
+		if !(okInit && okStep && okBound) {
+			return fmt.Sprintf("the line index is neither the resolved line nor a counter from the resolved line to the resolved end line (start ok=%v, step ok=%v, bound `<= endLine` ok=%v)", okInit, okStep, okBound)
+		}
+		return ""
+	}
+	// Position itself and the File methods it calls directly (an extracted "sourceLine(l)" helper)
+	type place struct {
+		fn    *ssa.Function
+		calls []*ssa.Call // call sites in Position (nil for Position itself)
+	}
+	places := []place{{fn: pf}}
+	seenH := map[*ssa.Function]bool{pf: true}
 	for _, b := range pf.Blocks {
 		for _, in := range b.Instrs {
-			sl, ok := in.(*ssa.Slice)
+			c, ok := in.(*ssa.Call)
 			if !ok {
 				continue
 			}
-			if f, ok := fieldLoadOf(sl.X, recv); !ok || f != "Buffer" {
+			h := c.Call.StaticCallee()
+			if h == nil || h == resolve || h.Blocks == nil || h.Signature.Recv() == nil || !isNamed(h.Signature.Recv().Type(), modRoot+"/token", "File") || c.Call.Args[0] != ssa.Value(recv) {
 				continue
 			}
-			n++
-			construct := fmt.Sprintf("excerpt line #%d", n)
-			var problems []string
-			var l ssa.Value
-			if sl.Low == nil || sl.High == nil {
-				problems = append(problems, "the slice has an open bound")
-			} else {
-				lo, okLo := linesElem(sl.Low, recv)
-				hx, hk := plusConst(sl.High)
-				hi, okHi := linesElem(hx, recv)
-				switch {
-				case !okLo:
-					problems = append(problems, "the excerpt does not start at lines[l]")
-				case !okHi || hk != -1:
-					problems = append(problems, "the excerpt does not end at lines[…]-1 (the byte before the next line start, i.e. without the newline)")
-				default:
-					hb, hkk := plusConst(hi)
-					lb, lkk := plusConst(lo)
-					if hb != lb || hkk-lkk != 1 {
-						problems = append(problems, "the end of the excerpt is not taken from the entry right after the one its start is taken from")
-					}
-					l = lo
+			if !seenH[h] {
+				seenH[h] = true
+				places = append(places, place{fn: h})
+			}
+			for k := range places {
+				if places[k].fn == h {
+					places[k].calls = append(places[k].calls, c)
 				}
 			}
-			if l != nil {
-				lb, lk := plusConst(l)
-				switch {
-				case lk != 0:
-					problems = append(problems, "the line index has an offset")
-				case resLine(lb, pos):
-				default:
-					phi, isPhi := lb.(*ssa.Phi)
-					okInit, okStep, okBound := false, false, false
-					if isPhi {
-						for _, e := range phi.Edges {
-							x, k := plusConst(e)
-							if x == ssa.Value(phi) && k == 1 {
-								okStep = true
-							} else if resLine(x, pos) && k == 0 {
-								okInit = true
+		}
+	}
+	n := 0
+	for _, pl := range places {
+		frecv := pl.fn.Params[0]
+		for _, b := range pl.fn.Blocks {
+			for _, in := range b.Instrs {
+				sl, ok := in.(*ssa.Slice)
+				if !ok {
+					continue
+				}
+				if f, ok := fieldLoadOf(sl.X, frecv); !ok || f != "Buffer" {
+					continue
+				}
+				n++
+				construct := fmt.Sprintf("excerpt line #%d", n)
+				var problems []string
+				var l ssa.Value
+				if sl.Low == nil || sl.High == nil {
+					problems = append(problems, "the slice has an open bound")
+				} else {
+					lo, okLo := linesElem(sl.Low, frecv)
+					hx, hk := plusConst(sl.High)
+					hi, okHi := linesElem(hx, frecv)
+					switch {
+					case !okLo:
+						problems = append(problems, "the excerpt does not start at lines[l]")
+					case !okHi || hk != -1:
+						problems = append(problems, "the excerpt does not end at lines[…]-1 (the byte before the next line start, i.e. without the newline)")
+					default:
+						hb, hkk := plusConst(hi)
+						lb, lkk := plusConst(lo)
+						if hb != lb || hkk-lkk != 1 {
+							problems = append(problems, "the end of the excerpt is not taken from the entry right after the one its start is taken from")
+						}
+						l = lo
+					}
+				}
+				if l != nil {
+					lb, lk := plusConst(l)
+					switch {
+					case lk != 0:
+						problems = append(problems, "the line index has an offset")
+					case pl.fn == pf:
+						if why := indexProblem(lb); why != "" {
+							problems = append(problems, why)
+						}
+					default:
+						// in a helper: the index is a parameter, judged at each call site in Position
+						prm, isP := lb.(*ssa.Parameter)
+						pi := -1
+						for k, q := range pl.fn.Params {
+							if isP && q == prm {
+								pi = k
 							}
 						}
-						for _, u := range referrers(phi) {
-							if c, ok := u.(*ssa.BinOp); ok {
-								if c.X == ssa.Value(phi) && resLine(c.Y, end) && c.Op == token.LEQ {
-									for _, uu := range referrers(c) {
-										if _, ok := uu.(*ssa.If); ok {
-											okBound = true
-										}
-									}
+						if pi < 0 {
+							problems = append(problems, "the line index of the helper is not one of its parameters")
+						} else {
+							for _, c := range pl.calls {
+								ab, ak := plusConst(c.Call.Args[pi])
+								if ak != 0 {
+									problems = append(problems, "the helper is called with an offset line index")
+								} else if why := indexProblem(ab); why != "" {
+									problems = append(problems, why)
 								}
 							}
 						}
 					}
-					if !(okInit && okStep && okBound) {
-						problems = append(problems, fmt.Sprintf("the line index is neither the resolved line nor a counter from the resolved line to the resolved end line (start ok=%v, step ok=%v, bound `<= endLine` ok=%v)", okInit, okStep, okBound))
-					}
-				}
-				// the number printed with it: some Fprintf in the same block gets l+1 and this slice
-				numbered := false
-				for _, x := range b.Instrs {
-					c, ok := x.(*ssa.Call)
-					if !ok {
-						continue
-					}
-					ops := varargOperands(c)
-					hasSlice, hasNum := false, false
-					for _, o := range ops {
-						if o == ssa.Value(sl) {
-							hasSlice = true
-						}
-						if ob, ok2 := plusConst(o); ok2 == 1 && ob == lb {
-							hasNum = true
+					// the number printed with it: a formatting call in the same function gets l+1
+					hasNum := false
+					for _, bb := range pl.fn.Blocks {
+						for _, x := range bb.Instrs {
+							c, ok := x.(*ssa.Call)
+							if !ok {
+								continue
+							}
+							for _, o := range varargOperands(c) {
+								if ob, k1 := plusConst(o); k1 == 1 && ob == lb {
+									hasNum = true
+								}
+							}
 						}
 					}
-					if hasSlice && hasNum {
-						numbered = true
-					}
-					if hasSlice && !hasNum {
-						problems = append(problems, "the excerpt line is printed with another number than l+1")
+					if !hasNum {
+						problems = append(problems, "the excerpt line is not printed with the number l+1")
 					}
 				}
-				_ = numbered
-			}
-			if len(problems) > 0 {
-				r.bad(rule, construct, w.pos(sl.Pos()), strings.Join(uniqSorted(problems), "; "))
-			} else {
-				r.ok(rule, construct, w.pos(sl.Pos()), "Buffer[lines[l]:lines[l+1]-1], numbered l+1")
+				if len(problems) > 0 {
+					r.bad(rule, construct, w.pos(sl.Pos()), strings.Join(uniqSorted(problems), "; "))
+				} else {
+					r.ok(rule, construct, w.pos(sl.Pos()), "Buffer[lines[l]:lines[l+1]-1], numbered l+1")
+				}
 			}
 		}
 	}
-	if n < 2 {
-		r.errorf("expected the two excerpt slices of (*File).Position (single line, several lines), found %d", n)
+	if n < 1 {
+		r.errorf("no excerpt slice of the buffer found in (*File).Position or a File method it calls")
 	}
 	// the separator between excerpt lines: a line break in front of every line but the first of the excerpt
 	for _, b := range pf.Blocks {
